@@ -187,8 +187,19 @@ def bridge_corpus():
 # ---------------------------------------------------------------------------
 VAL = {"C": 4, "N": 3, "O": 2, "S": 2, "F": 1, "Cl": 1, "Br": 1, "P": 3, "B": 3}
 RINGS = ["c1ccccc1", "c1ccncc1", "C1CCCCC1", "C1CCOC1", "c1ccoc1", "c1ccsc1", "C1CC1", "c1ccc2ccccc2c1", "c1cncnc1"]
+# aromatic ring systems WRITTEN in Kekule form (the FGUtils parser, and any graph assembled by hand or by apply_rule, keeps
+# the bonds 1/2 as written; RDKit's default reader perceives aromaticity when the SMILES written for such a graph is re-read)
+KEKULE_RINGS = ["C1=CC=CC=C1", "C1=CC=CN=C1", "C1=COC=C1", "C1=CSC=C1", "C1=CC=C2C=CC=CC2=C1", "C1=CC=CC=C1O", "C1=NC=NC=C1",
+                "C1=CNC=C1", "C1=CC=C(C=C1)C", "C1=CC=CC=C1Cl"]
+# hypervalent groups written WITHOUT charges: RDKit's sanitisation rewrites pentavalent N (nitro, diazo, azide, N-oxide) into the
+# charge-separated form (bond orders change), and leaves sulfone / sulfoxide / phosphine oxide / phosphate alone
+HYPER_1 = ["N(=O)=O", "N=N#N", "S(C)(=O)=O", "S(=O)(=O)O", "P(C)(C)=O", "S(C)=O", "OP(=O)(O)O", "N(C)(C)=O", "ON(=O)=O"]   # attached by a single bond
+HYPER_2 = ["N#N", "S(=O)=O", "S(C)(C)=O"]                                           # attached by a double bond (C=N#N diazo)
 BOND_SYM = {1: "", 2: "=", 3: "#"}
 SMILES_REREAD_FLOOR = 0.5
+# witnesses of K8 (review 3, H1) and neighbours that must round-trip; each through the parser (bonds as written) in every run
+SMILES_CORPUS = ["C1=CC=CC=C1", "C1=CC=CN=C1", "C1=COC=C1", "CC1=CC=CC=C1O", "C1=CC=C2C=CC=CC2=C1", "CN(=O)=O", "C=N#N", "CN=N#N",
+                 "CS(C)(=O)=O", "CP(C)(C)=O", "C1=CCCCC1", "C1=CC=CC1", "c1ccccc1", "O=N(=O)C1=CC=CC=C1"]
 
 
 def gen_smiles(rng, depth=0, incoming=0, budget=None):
@@ -198,6 +209,12 @@ def gen_smiles(rng, depth=0, incoming=0, budget=None):
     budget[0] -= 1
     if incoming == 1 and rng.random() < 0.18:
         return rng.choice(RINGS)
+    if incoming == 1 and rng.random() < 0.07:
+        return rng.choice(KEKULE_RINGS)
+    if incoming == 1 and rng.random() < 0.07:
+        return rng.choice(HYPER_1)
+    if incoming == 2 and rng.random() < 0.12:
+        return rng.choice(HYPER_2)
     sym = rng.choice([e for e, v in VAL.items() if v >= max(incoming, 1)] + ["C"] * 6)
     free = VAL[sym] - incoming
     parts = []
@@ -224,29 +241,131 @@ def iso(g, h):
                             edge_match=lambda a, b: a["bond"] == b["bond"])
 
 
+_RD_ORDER = None
+
+
+def rdkit_alone_graph(mol):
+    """the molecule RDKit holds, read with RDKit ALONE (no code of the library): symbols, bonded pairs, orders (aromatic = 1.5)"""
+    global _RD_ORDER
+    import rdkit.Chem as Chem
+    if _RD_ORDER is None:
+        _RD_ORDER = {Chem.BondType.SINGLE: 1, Chem.BondType.DOUBLE: 2, Chem.BondType.TRIPLE: 3, Chem.BondType.QUADRUPLE: 4,
+                     Chem.BondType.AROMATIC: 1.5}
+    g = nx.Graph()
+    for a in mol.GetAtoms():
+        g.add_node(a.GetIdx(), symbol=a.GetSymbol())
+    for b in mol.GetBonds():
+        g.add_edge(b.GetBeginAtomIdx(), b.GetEndAtomIdx(), bond=_RD_ORDER.get(b.GetBondType(), str(b.GetBondType())))
+    return g
+
+
+def same_graph(g, h):
+    """node for node, bond for bond (same ids)"""
+    return (sorted((n, norm_sym(d["symbol"])) for n, d in g.nodes(data=True)) == sorted((n, norm_sym(d["symbol"])) for n, d in h.nodes(data=True))
+            and sorted((min(u, v), max(u, v), d["bond"]) for u, v, d in g.edges(data=True))
+            == sorted((min(u, v), max(u, v), d["bond"]) for u, v, d in h.edges(data=True)))
+
+
+def k8_scope(g, written, back):
+    """scope of known finding K8, decided per case with RDKit ALONE: (1) RDKit's reading of the written SMILES WITHOUT sanitisation
+    is isomorphic to the graph (graph_to_smiles wrote it faithfully); (2) the graph the library re-read is, atom for atom, RDKit's
+    default (sanitised) reading of that string (smiles_to_graph added nothing of its own); (3) the two RDKit readings differ ONLY
+    in bonds that sanitisation made aromatic (both atoms aromatic) or that touch an atom whose formal charge sanitisation changed
+    (charge-separated normal form of nitro / diazo / azide / N-oxide).  -> (in_scope, reason)"""
+    import rdkit.Chem as Chem
+    raw = Chem.MolFromSmiles(written, sanitize=False)
+    san = Chem.MolFromSmiles(written)
+    if raw is None or san is None or raw.GetNumAtoms() != san.GetNumAtoms() or raw.GetNumBonds() != san.GetNumBonds():
+        return False, "RDKit readings with / without sanitisation have different atoms or bonds"
+    if any(a.GetSymbol() != b.GetSymbol() for a, b in zip(raw.GetAtoms(), san.GetAtoms())):
+        return False, "RDKit readings with / without sanitisation differ in an atom symbol"
+    if not iso(g, rdkit_alone_graph(raw)):
+        return False, "the written SMILES, read by RDKit WITHOUT sanitisation, is not isomorphic to the graph: graph_to_smiles lost or changed something"
+    if not same_graph(back, rdkit_alone_graph(san)):
+        return False, "smiles_to_graph(written) is not RDKit's own default reading of that string"
+    charged = {a.GetIdx() for a, b in zip(raw.GetAtoms(), san.GetAtoms()) if a.GetFormalCharge() != b.GetFormalCharge()}
+    kinds = set()
+    n_diff = 0
+    for x, y in zip(raw.GetBonds(), san.GetBonds()):
+        ends = {x.GetBeginAtomIdx(), x.GetEndAtomIdx()}
+        if ends != {y.GetBeginAtomIdx(), y.GetEndAtomIdx()}:
+            return False, "RDKit readings with / without sanitisation list different bonds"
+        if x.GetBondType() == y.GetBondType():
+            continue
+        n_diff += 1
+        if y.GetIsAromatic() and y.GetBeginAtom().GetIsAromatic() and y.GetEndAtom().GetIsAromatic():
+            kinds.add("aromaticity_perceived")
+        elif ends & charged:
+            kinds.add("charge_separated_normal_form")
+        else:
+            return False, "a bond changed by sanitisation is neither aromatic nor at an atom whose charge changed"
+    if n_diff == 0:
+        return False, "sanitisation changed no bond: the difference is not RDKit's"
+    return True, "+".join(sorted(kinds))
+
+
+def judge_roundtrip(g, written, back):
+    """-> ('ok' | 'known:K8' | 'violation', detail)"""
+    if iso(g, back):
+        return "ok", ""
+    inside, why = k8_scope(g, written, back)
+    return ("known:K8", why) if inside else ("violation", why)
+
+
 def smiles_leg(r, n_cases):
     from fgutils.rdkit import graph_to_smiles, smiles_to_graph
     from fgutils.parse import parse
+    from common import load_known_findings
     import rdkit.Chem as Chem
     from rdkit import RDLogger
     RDLogger.DisableLog("rdApp.*")
     rng = r.rng
+    k8 = {f["id"]: f for f in load_known_findings()}.get("K8")
     fails = []
+    known = []
     n_written = n_reread = 0
-    for k in range(n_cases):
-        smi = gen_smiles(rng)
+    for k in range(-len(SMILES_CORPUS), n_cases):
+        # a fixed share of every run: aromatic rings written in Kekule form and hypervalent groups written without charges,
+        # alone and as substituents (the rest: random trees in which they also occur as substituents)
+        if k < 0:
+            smi = SMILES_CORPUS[k]
+            r.count("smiles:corpus")
+        elif k % 8 == 3:
+            smi = rng.choice(KEKULE_RINGS) + rng.choice(["", "", "C", "O", "N(=O)=O", "C(=O)O", "S(C)(=O)=O"])
+            r.count("smiles:template=kekule_ring")
+        elif k % 8 == 5:
+            c = rng.random()
+            smi = (rng.choice(["C", "CC", "c1ccccc1", "C1CCCCC1", "OCC"]) + rng.choice(HYPER_1)) if c < 0.6 else (
+                rng.choice(["C", "CC", "CC(C)", "C1CCCCC1"]) + "=" + rng.choice(HYPER_2))
+            r.count("smiles:template=hypervalent_group")
+        else:
+            smi = gen_smiles(rng)
         mol = Chem.MolFromSmiles(smi)
         if mol is None:
             r.count("smiles:generator-invalid")
             continue
-        source = "rdkit" if k % 2 == 0 else "parser"
+        source = "parser" if k < 0 else ("rdkit", "parser", "rdkit", "parser", "kekulized")[k % 5]
         try:
-            g = smiles_to_graph(smi) if source == "rdkit" else parse(smi)
+            if source == "parser":
+                g = parse(smi)          # bonds as written: Kekule rings stay 1/2, pentavalent N stays uncharged
+            elif source == "kekulized":
+                # RDKit's molecule with its aromatic rings kekulized (aromatic flags cleared), read with RDKit alone
+                m2 = Chem.Mol(mol)
+                Chem.Kekulize(m2, clearAromaticFlags=True)
+                g = rdkit_alone_graph(m2)
+            else:
+                g = rdkit_alone_graph(mol)      # RDKit's sanitised molecule (aromatic = 1.5), read with RDKit alone
         except Exception as e:       # the FGUtils parser does not read everything RDKit reads
             r.count("smiles:source-graph-unavailable")
             continue
         r.evaluations += 1
         r.count("smiles:source=" + source)
+        orders = [d["bond"] for _, _, d in g.edges(data=True)]
+        ring_edges = {frozenset(e) for c_ in nx.cycle_basis(g) for e in zip(c_, c_[1:] + c_[:1])}
+        if any(d["bond"] == 2 and frozenset((u, v)) in ring_edges for u, v, d in g.edges(data=True)):
+            r.count("smiles:graph-has-double-bond-in-ring")
+        if any(sum(d["bond"] for _, _, d in g.edges(n, data=True)) >= 5 for n in g.nodes if g.nodes[n]["symbol"] in ("N", "S", "P")):
+            r.count("smiles:graph-has-hypervalent-N/S/P")
         form = None
         g_impl = g
         if rng.random() < FORM_SHARE:
@@ -268,13 +387,25 @@ def smiles_leg(r, n_cases):
             r.count("smiles:rdkit-cannot-reread")
             continue
         n_reread += 1
-        ok = iso(g, back)
-        r.count("smiles:roundtrip-isomorphic" if ok else "smiles:roundtrip-NOT-isomorphic")
+        verdict, why = judge_roundtrip(g, written, back)
+        if verdict == "known:K8" and not (k8 and k8.get("status") == "open"):
+            verdict = "violation"
+        r.count({"ok": "smiles:roundtrip-isomorphic", "known:K8": "smiles:roundtrip-NOT-isomorphic(known finding K8: %s)" % why,
+                 "violation": "smiles:roundtrip-NOT-isomorphic"}[verdict])
         if g.number_of_nodes() > 2:
             r.nontrivial.add(("smiles", written))
-        if not ok:
-            fails.append({"smiles": smi, "source": source, "written": written, "variant": form,
-                          "graph": sx(enc_graph(g)), "back": sx(enc_graph(back)), "what": "re-read graph not isomorphic"})
+        rec = {"smiles": smi, "source": source, "written": written, "variant": form,
+               "graph": sx(enc_graph(g)), "back": sx(enc_graph(back)), "what": "re-read graph not isomorphic", "classifier": why}
+        if verdict == "known:K8":
+            known.append(rec)
+        elif verdict == "violation":
+            fails.append(rec)
+    if known:
+        f = min(known, key=lambda d: len(d["written"]))
+        print("KNOWN-FINDING: property=C19 %s [K8; %d case(s) of this run, e.g. graph of %r (%s) written %r re-read with bonds %s: %s]" % (
+            k8["what"], len(known), f["smiles"], f["source"], f["written"],
+            sorted(b for _, _, b in smiles_to_graph(f["written"]).edges(data="bond")), f["classifier"]))
+    r.extra_cov["known_finding_hits_smiles_leg"] = {"K8": len(known)}
     if fails:
         f = min(fails, key=lambda d: len(d["smiles"]))
         p = r.write_replay("failing-input", "smiles_roundtrip", dict(f, n_failures=len(fails),
@@ -503,7 +634,10 @@ def run(tier, seed):
     r.assumptions = [
         "RDKit RWMol contract (assumed, exercised by every bridge case): AddAtom returns the running index, GetAtoms/GetBonds iterate in insertion order, "
         "Atom(sym).GetSymbol() = sym for element symbols, GetAtomMapNum() = the number set or 0, GetMol() without sanitisation changes nothing",
-        "RDKit's SMILES writer/reader round trip is exercised (smiles leg), not proved",
+        "RDKit's SMILES writer/reader round trip is exercised (smiles leg), not proved; source graphs and the scope oracle of K8 are built with RDKit "
+        "alone (rdkit_alone_graph / k8_scope), never with the bridge under test.  A re-read graph that is not isomorphic is known finding K8 only when "
+        "RDKit's UNSANITISED reading of the written SMILES is isomorphic to the graph, the library's re-read graph is atom for atom RDKit's default reading, "
+        "and the two readings differ only in bonds made aromatic or at atoms whose formal charge sanitisation changed; anything else is a violation",
         "networkx container semantics (add_node/add_edge/edges order) as in Model/Graph.lean; the WL model follows networkx.weisfeiler_lehman_graph_hash "
         "(undirected, node_attr+edge_attr) with the digest function abstract; blake2b collisions are not considered",
         "Python str() of bond orders: ints and 1.5 (graphs from mol_to_graph)",
@@ -519,7 +653,10 @@ def run(tier, seed):
              "(1-24 atoms, ids contiguous/offset/sparse/shuffled/negative/permuted 0..n-1, orders 1,1.5,2,3,4, maps none/all/partial/with 0/negative, ignore_aam, "
              "8% labelled nodes, 3% unsupported orders (out of domain)); 12% of the bridge / SMILES-leg graphs, 24% of the mol_compare calls and every "
              "corpus graph handed over in another FORM (nx.freeze, sub-graph view of a larger graph, extra attributes, numpy ids / map numbers / half orders; "
-             "tags variant=*; a numpy map number that reaches RDKit's SetAtomMapNum is out of domain - reported finding); smiles: generated neutral molecules via RDKit and via the FGUtils parser; "
+             "tags variant=*; a numpy map number that reaches RDKit's SetAtomMapNum is out of domain - reported finding); smiles: generated neutral molecules (random trees with ring fragments; "
+             "aromatic rings also WRITTEN IN KEKULE FORM and nitro / diazo / azide / N-oxide / sulfone / sulfoxide / phosphine oxide / phosphate groups written "
+             "without charges as substituents, every 8th case a Kekule-ring template and every 8th a hypervalent-group template, plus the fixed K8 witnesses) as "
+             "graphs from RDKit alone (aromatic), from RDKit kekulized (aromatic flags cleared) and from the FGUtils parser (bonds as written); "
              "compare: renumbered/perturbed copies in batches of 16, half of the base molecules disconnected with several equal-size different fragments "
              "(renumberings permute the fragments); non-trivial = bridge inputs with at least one bond (distinct by request), "
              "distinct written SMILES with > 2 atoms, distinct WL batches",
@@ -579,7 +716,14 @@ def replay(path):
     if "smiles" in d:
         from fgutils.rdkit import graph_to_smiles, smiles_to_graph
         from fgutils.parse import parse
-        g = smiles_to_graph(d["smiles"]) if d.get("source") == "rdkit" else parse(d["smiles"])
+        import rdkit.Chem as Chem
+        if d.get("source") == "parser":
+            g = parse(d["smiles"])
+        else:
+            m2 = Chem.MolFromSmiles(d["smiles"])
+            if d.get("source") == "kekulized":
+                Chem.Kekulize(m2, clearAromaticFlags=True)
+            g = rdkit_alone_graph(m2)
         try:
             written = graph_to_smiles(g)
             back = smiles_to_graph(written)
@@ -590,11 +734,15 @@ def replay(path):
             print("REPLAY property=C19 smiles=%s raised %r" % (d["smiles"], e))
             print("VIOLATION property=C19 replay=%s" % path)
             return 1
-        ok = iso(g, back)
-        print("REPLAY property=C19 smiles=%s written=%s isomorphic=%s" % (d["smiles"], written, ok))
-        if not ok:
+        verdict, why = judge_roundtrip(g, written, back)
+        print("REPLAY property=C19 smiles=%s written=%s isomorphic=%s%s" % (d["smiles"], written, verdict == "ok",
+              "" if verdict == "ok" else " (%s: %s)" % (verdict, why)))
+        if verdict == "known:K8":
+            print("KNOWN-FINDING: property=C19 the failure is inside the scope of K8 (%s)" % why)
+            return 0
+        if verdict != "ok":
             print("VIOLATION property=C19 replay=%s" % path)
-        return 0 if ok else 1
+        return 0 if verdict == "ok" else 1
     if "target" in d and "candidate" in d:
         from fgutils.utils import mol_compare
         t, c = dec_graph(parse_sx(d["target"])), dec_graph(parse_sx(d["candidate"]))
